@@ -44,6 +44,22 @@ fn bag(rows: &[Row]) -> BTreeMap<Row, i64> {
     m
 }
 
+/// do all stored batches carry exactly the table's column types? (first mismatch)
+async fn physical_type_mismatch(mt: &MemTable, t: &TableDef) -> Option<String> {
+    let want = t.schema();
+    for (pi, p) in mt.batches.iter().enumerate() {
+        let g = p.read().await;
+        for (bi, b) in g.iter().enumerate() {
+            for (ci, f) in want.fields().iter().enumerate() {
+                if b.column(ci).data_type() != f.data_type() {
+                    return Some(format!("partition {pi} batch {bi} column `{}`: stored {:?}, table schema {:?}", f.name(), b.column(ci).data_type(), f.data_type()));
+                }
+            }
+        }
+    }
+    None
+}
+
 async fn read_layout(mt: &MemTable) -> Layout {
     let mut out = vec![];
     for p in &mt.batches {
@@ -72,6 +88,19 @@ async fn exec(ctx: &SessionContext, sql: &str) -> Result<u64, String> {
     }
 }
 
+/// the engine's own reading of a WHERE clause: `SELECT COUNT(*) FROM t WHERE <w>` (None = it fails)
+async fn select_count(ctx: &SessionContext, w: &str) -> Option<u64> {
+    let df = ctx.sql(&format!("SELECT COUNT(*) FROM t WHERE {w}")).await.ok()?;
+    let bs = df.collect().await.ok()?;
+    match batches_rows(&bs)?.as_slice() {
+        [r] => match r.as_slice() {
+            [V::Int(_, _, n)] => Some(*n as u64),
+            _ => None,
+        },
+        _ => None,
+    }
+}
+
 enum Stmt {
     Delete(Option<X>),
     /// assignments (column index, expression), WHERE
@@ -94,7 +123,7 @@ impl Stmt {
             Stmt::InsertValues(_, sql) => sql.clone(),
             Stmt::InsertSelect(src, es, w) => format!(
                 "INSERT INTO t SELECT {} FROM {}{}",
-                es.iter().map(|e| e.sql()).collect::<Vec<_>>().join(", "),
+                es.iter().enumerate().map(|(i, e)| format!("{} AS i{i}", e.sql())).collect::<Vec<_>>().join(", "),
                 if *src == 0 { "t" } else { "u" },
                 w.as_ref().map(|w| format!(" WHERE {}", w.sql())).unwrap_or_default()
             ),
@@ -124,12 +153,33 @@ fn gen_where(rng: &mut Rng, scope: &Scope, fallible: bool) -> Option<X> {
         g.fallible = true;
         return Some(g.gen_expr(rng, Ty::Bool, 2, true));
     }
+    // mostly conjuncts that look at the row; a constant conjunct (`false`, `NULL`, `1 = 0` …) only now
+    // and then (it is what triggers finding F1, which ends the history)
+    let constant_ok = rng.chance(1, 25);
+    let has_col = |x: &X| {
+        let mut c = false;
+        x.walk(&mut |n| {
+            if let X::Col(..) = n {
+                c = true
+            }
+        });
+        c
+    };
+    let mut conj = |rng: &mut Rng| {
+        let mut e = g.gen_expr(rng, Ty::Bool, 1, true);
+        for _ in 0..6 {
+            if constant_ok || has_col(&e) {
+                break;
+            }
+            let d = 1 + rng.below(2) as u32;
+            e = g.gen_expr(rng, Ty::Bool, d, true);
+        }
+        e
+    };
     let n = 1 + rng.below(3);
-    let d = 1 + rng.below(2) as u32;
-    let mut e = g.gen_expr(rng, Ty::Bool, d, true);
+    let mut e = conj(rng);
     for _ in 1..n {
-        let d = 1 + rng.below(2) as u32;
-        e = X::Bin(Op::And, Box::new(e), Box::new(g.gen_expr(rng, Ty::Bool, d, true)));
+        e = X::Bin(Op::And, Box::new(e), Box::new(conj(rng)));
     }
     Some(e)
 }
@@ -275,6 +325,10 @@ async fn history(run: &mut Run, rng: &mut Rng, h: u64) {
         let st = gen_stmt(rng, &t, &scope);
         let sql = st.sql(&t);
         sqls.push(sql.clone());
+        let sel = match &st {
+            Stmt::Delete(Some(w)) | Stmt::Update(_, Some(w)) => select_count(&ctx, &w.sql()).await,
+            _ => None,
+        };
         let res = exec(&ctx, &sql).await;
         let after = read_layout(&mt).await;
         let rb = layout_rows(&before);
@@ -299,9 +353,63 @@ async fn history(run: &mut Run, rng: &mut Rng, h: u64) {
                 }
             }
         };
+        if std::env::var("VERIF_DEBUG").is_ok() {
+            eprintln!("h#{h} stmt#{k} [{}] {sql}\n      => {:?}", run.n_cases + 1, res.as_ref().map_err(|e| e.replace('\n', " ").chars().take(300).collect::<String>()));
+        }
         // ---- implementation-level oracles
+        let mut stop = false;
         if res.is_err() {
-            run.oracle(before == after, &format!("failed-statement-changes-table {sig}"), &format!("statement failed ({head}) but the table changed: after {} ; {}", layout_sx(&after), ctxt()));
+            // F3: a failing statement must leave the table as it was (the code commits partition by
+            // partition; the model follows the code, so the history can go on)
+            run.oracle(before == after, &format!("C39 F3 failed-statement-not-atomic {} :: {sql}", st.kind()), &format!("statement failed ({head}) but the table changed: after {} ; {}", layout_sx(&after), ctxt()));
+        }
+        if let Err(m) = &res {
+            if m.contains("__common_expr") {
+                // F2: common-subexpression elimination rewrote the DML input plan; the provider is
+                // handed expressions over columns that do not exist
+                run.oracle(false, &format!("C39 F2 cse-common-expr-breaks-dml {} :: {sql}", st.kind()), &format!("valid statement rejected: {} ; {}", m.replace('\n', " "), ctxt()));
+                run.count("finding:F2");
+                stop = true;
+            }
+        }
+        if let Err(m) = &res {
+            if m.contains("arguments need to have the same data type") {
+                // F4: UPDATE of a Utf8 column from an expression whose branches mix Utf8 / Utf8View
+                run.oracle(false, &format!("C39 F4 update-string-view-type-mismatch {} :: {sql}", st.kind()), &format!("valid statement rejected: {} ; {}", m.replace('\n', " "), ctxt()));
+                run.count("finding:F4");
+                stop = true;
+            }
+        }
+        if matches!(st, Stmt::InsertSelect(..) | Stmt::InsertValues(..)) && res.is_ok() {
+            // F6: what INSERT stores must have the table's column types
+            if let Some(m) = physical_type_mismatch(&mt, &t).await {
+                run.oracle(false, &format!("C39 F6 insert-stores-mismatching-physical-type {} :: {sql}", st.kind()), &format!("{m} ; {}", ctxt()));
+                run.count("finding:F6");
+                stop = true;
+            } else {
+                run.oracle(true, "", "");
+            }
+        }
+        if let (Some(sel), Ok(n)) = (sel, &res) {
+            // the count a DELETE/UPDATE reports = the number of rows the engine's own SELECT finds
+            // with the same WHERE
+            let all = rb.len() as u64;
+            if *n != sel {
+                let f1 = sel == 0 && *n == all && all > 0;
+                let sg = if f1 { format!("C39 F1 where-never-true-affects-all-rows {} :: {sql}", st.kind()) } else { format!("C39 dml-count-differs-from-select-count {} :: {sql}", st.kind()) };
+                run.oracle(false, &sg, &format!("statement reported {n} affected rows, `SELECT COUNT(*) FROM t WHERE …` with the same condition found {sel} of {all}; after {} ; {}", layout_sx(&after), ctxt()));
+                if f1 {
+                    run.count("finding:F1");
+                }
+                stop = true;
+            } else {
+                run.oracle(true, "", "");
+            }
+        }
+        if stop {
+            // the table no longer is what SQL semantics says: end this history here (the statements
+            // before this one are still compared with the model)
+            break;
         }
         match (&st, &res) {
             (Stmt::Delete(_), Ok(n)) => {
@@ -361,9 +469,11 @@ async fn history(run: &mut Run, rng: &mut Rng, h: u64) {
         before = after;
     }
     req.push(')');
-    let nontrivial = nst >= 3 && kinds.len() >= 2 && changed;
-    run.case("run", &req, &ans.join(" ; "), nontrivial);
-    run.add("statements", nst as u64);
+    let nontrivial = ans.len() >= 3 && kinds.len() >= 2 && changed;
+    if !ans.is_empty() {
+        run.case("run", &req, &ans.join(" ; "), nontrivial);
+    }
+    run.add("statements", ans.len() as u64);
 }
 
 pub fn run(run: &mut Run, args: &Args) {
